@@ -43,6 +43,11 @@ pub fn verdict(p: &Prop, ctx: Ctx, env: &Env) -> V {
     use V::*;
     // the request/response builders produce ordinary PUBLISH packets: same table, except that a
     // second Correlation Data next to the one the builder adds is a protocol error either way
+    // a string or binary value longer than 65535 bytes cannot be encoded: refused wherever it is
+    // attached to a request (a will is judged when the CONNECT is built: C09)
+    if too_long(p) {
+        return if ctx == Ctx::Will { DontCare } else { Reject };
+    }
     let ctx = match (ctx, p) {
         (Ctx::PublishCorrelated | Ctx::Reply, CorrelationData(_)) => return DontCare,
         (Ctx::PublishCorrelated | Ctx::Reply, _) => Ctx::Publish,
@@ -63,6 +68,19 @@ pub fn verdict(p: &Prop, ctx: Ctx, env: &Env) -> V {
     }
 }
 
+/// A string / binary value that cannot be encoded (longer than 65535 bytes). Such a request is
+/// refused when it is encoded, not when its properties are validated: after the identifier was
+/// allocated (C07 counts on refused requests consuming identifiers) and after the admission checks.
+pub fn too_long(p: &Prop) -> bool {
+    use Prop::*;
+    match p {
+        ContentType(s) | ResponseTopic(s) | ReasonString(s) | ServerReference(s) | AssignedClientId(s) | AuthMethod(s) | ResponseInfo(s) => s.len() > 65535,
+        UserProperty(k, v) => k.len() > 65535 || v.len() > 65535,
+        CorrelationData(d) | AuthData(d) => d.len() > 65535,
+        _ => false,
+    }
+}
+
 /// Value variants exercised for one property kind (legal, boundary and illegal values).
 pub fn variants(id: u8, r: &mut Rng) -> Vec<Prop> {
     use Prop::*;
@@ -70,9 +88,9 @@ pub fn variants(id: u8, r: &mut Rng) -> Vec<Prop> {
     match id {
         0x01 => vec![PayloadFormat(0), PayloadFormat(1), PayloadFormat(2), PayloadFormat(255)],
         0x02 => vec![MessageExpiry(0), MessageExpiry(u32::MAX)],
-        0x03 => vec![ContentType(s(r))],
-        0x08 => vec![ResponseTopic("r/t".into())],
-        0x09 => vec![CorrelationData(vec![]), CorrelationData(vec![1, 2])],
+        0x03 => vec![ContentType(s(r)), ContentType("c".repeat(65536))],
+        0x08 => vec![ResponseTopic("r/t".into()), ResponseTopic("r".repeat(65536))],
+        0x09 => vec![CorrelationData(vec![]), CorrelationData(vec![1, 2]), CorrelationData(vec![9; 65536])],
         0x0B => vec![SubscriptionId(0), SubscriptionId(1), SubscriptionId(268_435_455), SubscriptionId(268_435_456), SubscriptionId(u32::MAX)],
         0x11 => vec![SessionExpiry(0), SessionExpiry(1), SessionExpiry(u32::MAX)],
         0x12 => vec![AssignedClientId(s(r))],
@@ -84,13 +102,13 @@ pub fn variants(id: u8, r: &mut Rng) -> Vec<Prop> {
         0x19 => vec![RequestResponseInfo(0), RequestResponseInfo(1), RequestResponseInfo(2)],
         0x1A => vec![ResponseInfo(s(r))],
         0x1C => vec![ServerReference(s(r))],
-        0x1F => vec![ReasonString(String::new()), ReasonString("x".into())],
+        0x1F => vec![ReasonString(String::new()), ReasonString("x".into()), ReasonString("x".repeat(65537))],
         0x21 => vec![ReceiveMaximum(0), ReceiveMaximum(5)],
         0x22 => vec![TopicAliasMaximum(0), TopicAliasMaximum(5)],
         0x23 => vec![TopicAlias(0), TopicAlias(1), TopicAlias(10), TopicAlias(11), TopicAlias(65535)],
         0x24 => vec![MaximumQoS(0), MaximumQoS(1), MaximumQoS(2), MaximumQoS(3)],
         0x25 => vec![RetainAvailable(0), RetainAvailable(1), RetainAvailable(2)],
-        0x26 => vec![UserProperty(String::new(), String::new()), UserProperty("k".into(), "v".into())],
+        0x26 => vec![UserProperty(String::new(), String::new()), UserProperty("k".into(), "v".into()), UserProperty("k".repeat(65536), "v".into()), UserProperty("k".into(), "v".repeat(65536))],
         0x27 => vec![MaximumPacketSize(0), MaximumPacketSize(100)],
         0x28 => vec![WildcardSubAvailable(0), WildcardSubAvailable(1), WildcardSubAvailable(2)],
         0x29 => vec![SubIdAvailable(0), SubIdAvailable(1), SubIdAvailable(2)],
@@ -115,7 +133,7 @@ fn request_step(ctx: Ctx, p: &Prop) -> Step {
     }
 }
 
-fn no_trace(op: &OpRec, probes: (&ProbeRec, &ProbeRec)) -> Option<String> {
+fn no_trace(op: &OpRec, probes: (&ProbeRec, &ProbeRec), identifier_too: bool) -> Option<String> {
     let (b, a) = (op.snap_before.as_ref()?, op.snap_after.as_ref()?);
     let ids = |s: &Snap| s.tx.retained.iter().map(|e| (e.packet_id, e.len)).collect::<Vec<_>>();
     if ids(b) != ids(a) {
@@ -133,7 +151,7 @@ fn no_trace(op: &OpRec, probes: (&ProbeRec, &ProbeRec)) -> Option<String> {
     if probes.0.quiescent != probes.1.quiescent || probes.0.can_publish != probes.1.can_publish {
         return Some("quiescence / can_publish changed".into());
     }
-    if b.next_packet_id != a.next_packet_id {
+    if identifier_too && b.next_packet_id != a.next_packet_id {
         return Some(format!("a packet identifier was consumed ({} -> {}): the next request carries a different identifier on the wire", b.next_packet_id, a.next_packet_id));
     }
     None
@@ -326,6 +344,10 @@ impl Check for C19 {
                             // (refused if illegal, otherwise it completes the pending one); every
                             // other request is refused one way or the other
                             out.count("closing_handle_cells", 1);
+                            if too_long(&pc) && ctx == Ctx::Disconnect {
+                                // never encoded: the call only completes the DISCONNECT already begun
+                                return;
+                            }
                             let good = match (&op.outcome, ctx, v) {
                                 (Outcome::Err(ErrRepr::InvalidRequest), _, V::Reject) => true,
                                 (_, Ctx::Disconnect, V::Reject) => false,
@@ -366,7 +388,8 @@ impl Check for C19 {
                         match v {
                             V::DontCare => {}
                             V::Reject => {
-                                if op.outcome != Outcome::Err(ErrRepr::InvalidRequest) {
+                                let admission_first = too_long(&pc) && state >= 3 && matches!(op.outcome, Outcome::Err(_));
+                                if op.outcome != Outcome::Err(ErrRepr::InvalidRequest) && !admission_first {
                                     out.violations.push(viol("C19", format!("C19/{:?}/{}={}/accepted", ctx, Prop::name(id), value_class(&pc)).to_lowercase_ctx(), format!("{:?} with the illegal property {:?} returned {:?}", ctx, pc, op.outcome)));
                                 }
                                 out.count("no_trace_comparisons", 1);
@@ -375,7 +398,7 @@ impl Check for C19 {
                                 }
                                 if let (Some(pb), Some(pa)) = (pb, pa) {
                                     if matches!(op.outcome, Outcome::Err(_)) {
-                                        if let Some(d) = no_trace(op, (pb, pa)) {
+                                        if let Some(d) = no_trace(op, (pb, pa), !too_long(&pc)) {
                                             out.violations.push(viol("C19", format!("C19/{:?}/{}/refused-but-left-trace", ctx, Prop::name(id)).to_lowercase_ctx(), format!("{:?} with {:?} returned {:?} but {}", ctx, pc, op.outcome, d)));
                                         }
                                     }
@@ -636,7 +659,7 @@ impl Check for C19 {
                         if matches!(op.outcome, Outcome::Err(ErrRepr::InvalidRequest)) {
                             if let (Some(b), Some(a)) = (&op.snap_before, &op.snap_after) {
                                 let idl = |s: &Snap| s.tx.retained.iter().map(|e| (e.packet_id, e.len)).collect::<Vec<_>>();
-                                if idl(b) != idl(a) || b.send_quota != a.send_quota || b.next_packet_id != a.next_packet_id || b.tx.release.len() != a.tx.release.len() {
+                                if idl(b) != idl(a) || b.send_quota != a.send_quota || (b.next_packet_id != a.next_packet_id && !set.iter().any(too_long)) || b.tx.release.len() != a.tx.release.len() {
                                     out.violations.push(viol("C19", format!("C19/random-history/{}/refused-but-left-trace", lc), format!("{:?} with {:?} returned InvalidRequest but retained {:?} -> {:?}, quota {} -> {}, next identifier {} -> {}", ctx, set, idl(b), idl(a), b.send_quota, a.send_quota, b.next_packet_id, a.next_packet_id)));
                                 }
                             }
@@ -837,7 +860,7 @@ impl Check for C20 {
         if tier == Tier::Quick { 200 } else { 2000 }
     }
     fn required_counters(&self) -> Vec<&'static str> {
-        vec!["replies_decoded", "no_reply_offered", "owned_too_small", "owned_exact_fit", "replies_with_user_properties"]
+        vec!["replies_decoded", "no_reply_offered", "owned_too_small", "owned_exact_fit", "replies_with_user_properties", "requests_whose_response_topic_is_their_own_topic"]
     }
     fn run(&self, _workload: usize, seed: u64, _index: u64, _tier: Tier, verbose: bool) -> CaseOut {
         let mut out = CaseOut::default();
@@ -897,7 +920,17 @@ impl Check for C20 {
         let plen = r.below(10);
         let payload = r.bytes(plen);
         let qos = r.below(3) as u8;
-        let inbound = SPacket::Publish { dup: false, qos: r.below(2) as u8, retain: false, topic: "req".into(), pid: Some(7), props: props.clone(), payload: vec![9] };
+        // the request's own topic is usually unrelated to the response topic, now and then the
+        // very same string (a requester may listen where it publishes), or an extension of it
+        let req_topic: String = match r.below(16) {
+            0 | 1 if has_rt && tlen < 60_000 => {
+                out.count("requests_whose_response_topic_is_their_own_topic", 1);
+                topic.clone()
+            }
+            2 if has_rt && tlen < 60_000 => format!("{}/x", topic),
+            _ => "req".into(),
+        };
+        let inbound = SPacket::Publish { dup: false, qos: r.below(2) as u8, retain: false, topic: req_topic, pid: Some(7), props: props.clone(), payload: vec![9] };
         let inbound = match inbound {
             SPacket::Publish { qos: 0, dup, retain, topic, props, payload, .. } => SPacket::Publish { dup, qos: 0, retain, topic, pid: None, props, payload },
             p => p,
